@@ -1826,7 +1826,8 @@ pub(crate) fn resolve_temp_id(id: &str) -> Option<usize> {
             if !x.is_uppercase() {
                 return None;
             }
-            return Some(id[2..].parse().ok()?);
+            //(the remainder after the type letter, which may be wider than one byte)
+            return Some(iter.as_str().parse().ok()?);
         }
     }
     None
